@@ -11,10 +11,10 @@ LEVEL_TEXT = ("the parts of this property a contract on one call can express are
               "must be reported by the full scan with its exact absolute span, type and canonical value")
 LEVEL_NOTE = "regex contract (a match is a member of L(P°)); search semantics (leftmost / greedy) and the false-positive heuristics are outside the contracts; pefile is trusted"
 DESIGN_REF = "DESIGN.md 6 (C11)"
-from props.engine_common import ENGINE_FUNCS, engine_bounded  # noqa: E402
+from props.engine_common import ENGINE_FUNCS, LOWER_VIEW, engine_bounded  # noqa: E402
 
 # detection must not depend on unrelated neighbouring text: the engine's suppression bookkeeping (laminarity group) is part of this property
-EXCLUDE_CLAUSES = ("E4",)
+EXCLUDE_CLAUSES = ("E4",) + LOWER_VIEW
 FUNCTIONS = ENGINE_FUNCS + ["multidecoder.decoders.vba.get_closing_brace", "multidecoder.decoders.vba.find_createobject", "multidecoder.decoders.filename.find_executable_name",
              "multidecoder.decoders.filename.find_library", "multidecoder.decoders.path.find_path"]
 TRUSTED = [DC.NOT_UNDER_CONTRACT]
